@@ -23,6 +23,8 @@ func TestC03(t *testing.T) {
 	_ = gen.Small
 	check(t, 0, budget(6000, 80000), func(rt *rapid.T) {
 		c, rs := genRSCase(rt, cfg)
+		maybeFailingConditions(rt, c, rs)
+		maybeUsedBefore(rt, c, rs, cfg.Rules.State)
 		rep, v := runValidated(rt, c, "C03")
 		nt := rep.MultiCand > 0
 		labels := append(featLabels(rs), "ended:"+rep.EndedBy, "firings:"+bucket(rep.Firings))
